@@ -25,6 +25,15 @@ CHECKS = [
            'content equality, and two look-ahead allocation probes in every reached state.',
       note='Alphabet values are short strings; depth bound as stated in evidence; state canonicalisation keeps the internal-id layout '
            'signature so that states with different allocator futures are never merged.'),
+ dict(property_id='C05', engine='E1-bfs', level='model_checking',
+      technique='model checking: explicit-state BFS with lock-step execution of two backends against an executable reference model',
+      text='All histories to depth 4 (quick) / 5 (thorough), from an empty and a rich root, of ~75 property-graph operations (add/delete node, '
+           'add link, single/bulk/whole-graph property updates incl. attempts on Class and every identity property, link property '
+           'operations with right and wrong kind, merge with each policy, delete graph) are executed on the shared-store backend, the '
+           'per-graph backend and a reference model written from the interface docstrings. After every step: raise/return agreement, '
+           'whole-store snapshot equality with the model, ~40 query answers, identity invariants on the raw stores.',
+      note='Trusted base: the reference model (fimmc/refmodel_graph.py, ~200 lines). Unspecified corners are three-valued (listed in '
+           'evidence assumptions). After a merge only the shared backend continues (the per-graph backend documents merge as unsupported).'),
 ]
 _claimed = {c['property_id'] for c in CHECKS}
 NOT_APPLICABLE = [dict(property_id=p, reason='check not built yet in this revision (work in progress; model checking applies, see DESIGN.md)')
